@@ -126,7 +126,7 @@ def real_polars(tbl, um: ser.UidMap):
     from pydiverse.transform._internal.backend import polars as P
     from pydiverse.transform._internal.tree import verbs as V
     nd = tbl._ast
-    if any(isinstance(x, (V.Join, V.Union)) for x in nd.iter_subtree_preorder()):
+    if any(isinstance(x, V.Join) for x in nd.iter_subtree_preorder()):
         return None
     if not issubclass(tbl._cache.backend, P.PolarsImpl):
         return None
